@@ -347,7 +347,7 @@ impl Check for C17 {
             for s in spec.shrinks() {
                 out.push(case1(&s, cap, ps, key, probes, &tape));
                 for c in [8usize, 12, 16, 20, 24, 28, 32, 40, 48] {
-                    if c != cap {
+                    if c != cap && s.weight() <= 64 {
                         out.push(case1(&s, c, ps, key, probes, &tape));
                     }
                 }
